@@ -101,6 +101,8 @@ def run(prog, R):
                     s_ = show(ty)
                     ok = ty[0] == "adt" and ty[1] == T + "Type::SubroutineDef" and "typed_param_list" in s_ and ("return_signature" in s_ or "Type::Void" in s_)
                     R.ob("C09.4-subroutine-signature", "SubroutineDef{num_params <- typed params, return_type <- return signature | Void}", ok, s2s.at, s_[:200])
+    import C07
+    C07.return_type_scope(prog, R, "C09.4-return-type-scope")
     # ---- C09.2 no unchecked narrowing cast
     order = {"u8": 8, "u16": 16, "u32": 32, "u64": 64, "usize": 64, "u128": 128, "i8": 8, "i16": 16, "i32": 32, "i64": 64, "isize": 64, "i128": 128}
     narrow, widen = [], 0
@@ -119,6 +121,37 @@ def run(prog, R):
         R.ob("C09.2-no-silent-narrowing", f"{n[0]}:{n[1]}->{n[2]}", False, n[3], f"`as {n[2]}` on a {n[1]} value in the translator: a width/length that does not fit is silently replaced by another number; use a checked conversion")
     R.ob("C09.2-no-silent-narrowing", "translator", not narrow, "", f"{len(narrow)} narrowing `as` casts in syntax_to_semantics (positive control: {widen} widening casts found by the same matcher)")
     R.floor("positive control: widening casts", widen, 2)
+    # ---- C09.2 const-expression -> u32 conversion used for designators: Ok only for a non-negative integer literal
+    # (directly or under a cast), through the checked std conversion
+    tf = [k for k in prog.bodies if k.startswith("oq3_semantics::asg::<impl std::convert::TryFrom<&oq3_semantics::asg::TExpr> for u32>::try_from") and "{closure" not in k]
+    if tf:
+        b = prog.body(tf[0])
+        il = prog.adts.get("oq3_semantics::asg::IntLiteral")
+        fidx = {f["name"]: i for i, f in enumerate(il["variants"][0]["fields"])} if il else {}
+        badc, nok = [], 0
+        for p in SymExec(prog, b).paths():
+            if "__diverged__" in p.env:
+                badc.append("panic path")
+                continue
+            r = deep_strip(p.env.get(0))
+            if show(r).startswith("Result::Err"):
+                continue
+            nok += 1
+            # map_err(try_from(L.value), ..) with sign(L) == true on the path
+            inner = r[2][0] if r[0] in ("call", "pure") and r[1].endswith("map_err") else r
+            inner = deep_strip(inner)
+            okp = isinstance(inner, tuple) and inner[0] in ("call", "pure") and "TryFrom" in inner[1] and inner[1].endswith("try_from")
+            if okp:
+                v = deep_strip(inner[2][0])
+                okp = isinstance(v, tuple) and v[0] == "field" and v[2] == fidx.get("value")
+                if okp:
+                    lit = v[1]
+                    okp = any(isinstance(t_, tuple) and t_[0] == "field" and t_[1] == lit and t_[2] == fidx.get("sign") and truth(c) for t_, c in conds_of(p))
+            if not okp:
+                badc.append(show(r)[:80] + " under " + str([(show(t_)[-30:], c) for t_, c in conds_of(p)][-2:]))
+        R.ob("C09.2-designator-conversion", "u32::try_from(&TExpr) is Ok only for an integer literal with sign == true, via the checked conversion of its value", not badc and nok >= 1 and "sign" in fidx, b.at, f"{nok} Ok paths; {badc[:2]}")
+    else:
+        R.ob("ANCHOR", "TryFrom<&TExpr> for u32", False, "", "conversion used by designator_to_asg not found")
     # ---- C09.3 const side table
     cd = R.anchor(prog, S2S + "classical_declaration_statement_to_asg_stmt")
     if cd:
